@@ -283,11 +283,34 @@ def check_esn(ctx):
     X = np.array(flow.seq_rows(g, 6, 2), dtype=float)
     Y = np.array(flow.seq_rows(g, 6, 1), dtype=float)
 
-    def build():
-        e = ESN(units=5, seed=3, ridge=0.5)
+    def build(feedback=False):
+        e = ESN(units=5, seed=3, ridge=0.5, feedback=feedback)
         e.fit(X, Y)
         return e
     c = {"kind": "esn_witness"}
+    # with a feedback connection inside the ESN: one run = successive calls from the same state, and = chunks chained
+    # through from_state (what does hold for the ESN node, finding K3 notwithstanding)
+    try:
+        e1, e2, e3 = build(True), build(True), build(True)
+        r_whole = np.asarray(e1.run(X[:5]), dtype=float)
+        r_calls = np.vstack([np.asarray(e2(X[t:t + 1]), dtype=float).reshape(1, -1) for t in range(5)])
+        st = e3.run(X[:2], return_states="all")
+        chained = np.vstack([np.asarray(st["readout"], dtype=float),
+                             np.asarray(e3.run(X[2:5], from_state={e3.reservoir.name: st["reservoir"][-1:], e3.readout.name: st["readout"][-1:]}), dtype=float)])
+        ctx.count({"kind": "esn_fb_run_vs_calls"}, nontrivial=True, obligation="esn")
+        if not np.allclose(r_whole, r_calls, atol=1e-12):
+            ctx.violation("ESN with feedback: one run differs from successive single-step calls started from the same state "
+                          f"(max difference {float(np.max(np.abs(r_whole - r_calls))):.3g})", {"kind": "esn_witness"},
+                          expected=r_whole.tolist(), observed=r_calls.tolist(), obligation="esn")
+            return
+        if not np.allclose(r_whole, chained, atol=1e-12):
+            ctx.violation("ESN with feedback: one run differs from two chunks chained through from_state "
+                          f"(max difference {float(np.max(np.abs(r_whole - chained))):.3g})", {"kind": "esn_witness"},
+                          expected=r_whole.tolist(), observed=chained.tolist(), obligation="esn")
+            return
+    except Exception as e:  # noqa
+        ctx.violation(f"ESN (feedback) run / call raised {type(e).__name__}: {e}", c, obligation="esn")
+        return
     try:
         a, b = build(), build()
         whole = np.asarray(a.run(X), dtype=float)
